@@ -11,3 +11,4 @@ import UgoVerif.Props.C11
 import UgoVerif.Props.C09
 import UgoVerif.Props.C12
 import UgoVerif.Props.C14
+import UgoVerif.Props.C19
